@@ -8,7 +8,8 @@ import Model.Stream
 import Model.ValueSyntax
 import Gen.FlowTable
 import Gen.Sites
-import Proofs.LineAccept
+import Model.Template
+import Model.Value
 
 namespace Jl.FlowTie
 open Jl Jl.Flow Jl.Value Jl.Template
